@@ -585,14 +585,15 @@ theorem mapMOpt_all_fix {α} (f : α → Option (Option α)) (l : List α) (h : 
 /-! ### C20 when the rules let rel and target through -/
 
 /-- **the attribute pass reproduces its result on element `el`** when the rules do not look at the value of the
-    element's URL attribute and, on a link element, accept `rel` and `target` whatever their value: the tokens and
-    the target the options added are found in place on the second pass, and nothing is added again -/
+    element's URL attribute and, on a link element, still accept a list they accepted once the hardening block has
+    run over it (`hclosed`; e.g. because they accept `rel` and `target` whatever their value): the tokens and the
+    target the options added are found in place on the second pass, and nothing is added again -/
 theorem link_idemOpen (p : Policy) (el : Bytes) (hs : LinkCoreAt p el) (attrs out : List Attr) (aps : AttrRules)
     (h : p.sanitizeAttrs el attrs aps = some out)
     (hblind : ∀ k, urlKeyFor el = some k → ∀ v v',
       (p.filterAttr el aps false ⟨k, v⟩).isSome = (p.filterAttr el aps false ⟨k, v'⟩).isSome)
-    (hopen : isHrefElement el = true → ∀ v,
-      (p.filterAttr el aps false ⟨b!"rel", v⟩).isSome = true ∧ (p.filterAttr el aps false ⟨b!"target", v⟩).isSome = true) :
+    (hclosed : isHrefElement el = true → ∀ u : List Attr, (∀ a ∈ u, (p.filterAttr el aps false a).isSome = true) →
+      ∀ b ∈ p.hardenLinks el u, (p.filterAttr el aps false b).isSome = true) :
     p.sanitizeAttrs el out aps = some out := by
   rw [link_sanitizeAttrsAt p el hs] at h ⊢
   simp only at h ⊢
@@ -649,20 +650,11 @@ theorem link_idemOpen (p : Policy) (el : Bytes) (hs : LinkCoreAt p el) (attrs ou
         have hflags : (p.requireNoFollow || p.requireNoFollowFullyQualifiedLinks || p.requireNoReferrer ||
             p.requireNoReferrerFullyQualifiedLinks || p.addTargetBlankToFullyQualifiedLinks) = true := by
           simp only [Bool.and_eq_true] at hcond; exact hcond.1.1
-        have hopen' : ∀ v, acc ⟨b!"rel", v⟩ = true ∧ acc ⟨b!"target", v⟩ = true := by
-          intro v; rw [← hacc]; exact hopen hhref v
         have houtacc : ∀ b ∈ out, acc b = true := by
           intro b hb
           rw [hout] at hb
-          rcases mem_hardenLinks p el u b hb with hb | hb
-          · exact huacc b hb
-          · unfold isRelOrTarget at hb
-            simp only [Bool.or_eq_true, beq_iff_eq] at hb
-            rcases hb with hk | hk
-            · have : b = ⟨b!"rel", b.val⟩ := by cases b; simp_all
-              rw [this]; exact (hopen' b.val).1
-            · have : b = ⟨b!"target", b.val⟩ := by cases b; simp_all
-              rw [this]; exact (hopen' b.val).2
+          have hcl := hclosed hhref u (by intro a ha; have := huacc a ha; rw [← hacc] at this; exact this) b hb
+          rw [← hacc]; exact hcl
         have hfo : out.filter acc = out := List.filter_eq_self.mpr houtacc
         have hune : u.isEmpty = false := by
           cases u with
@@ -740,8 +732,17 @@ theorem attrFix_of_open (p : Policy) (hs : LinkOpen p) : AttrFix p := by
     · rename_i he
       have : attrs = [] := List.isEmpty_iff.mp he
       subst this; rfl
-    · exact link_idemOpen p t.data (hs.core t.data) t.attrs attrs aps h (hs.blind t.data aps haps)
-        (hs.letThrough t.data aps haps)
+    · refine link_idemOpen p t.data (hs.core t.data) t.attrs attrs aps h (hs.blind t.data aps haps) ?_
+      intro hhref u hu b hb
+      rcases mem_hardenLinks p t.data u b hb with hb | hb
+      · exact hu b hb
+      · unfold isRelOrTarget at hb
+        simp only [Bool.or_eq_true, beq_iff_eq] at hb
+        rcases hb with hk | hk
+        · have : b = ⟨b!"rel", b.val⟩ := by cases b; simp_all
+          rw [this]; exact (hs.letThrough t.data aps haps hhref b.val).1
+        · have : b = ⟨b!"target", b.val⟩ := by cases b; simp_all
+          rw [this]; exact (hs.letThrough t.data aps haps hhref b.val).2
 
 /-- **C20, policies with link options whose rules let rel and target through**: sanitising twice is sanitising
     once, for every input — "added rel tokens are not repeated" — provided URL normalisation is stable.
